@@ -4,6 +4,6 @@ package parser
 
 import "github.com/markusmobius/go-domdistiller/internal/pagination/info"
 
-func verifGroup(group *info.PageInfoGroup)       {}
+func verifGroup(group *info.PageInfoGroup)                {}
 func verifCand(strPattern string, pi *info.PageParamInfo) {}
 func verifBest(pi *info.PageParamInfo, multi bool)        {}
